@@ -13,23 +13,38 @@ from ..translate import c08 as tr
 META = {
     "property_id": "C08",
     "design_ref": "DESIGN.md section 5, C08 (Appendix B8)",
-    "technique": "Coq proof over an abstract field (ring/field, induction over the element lists) about an executable "
-                 "model of the operator assembly whose (row, col, value) patterns, weights and index formulas are "
-                 "regenerated from the source by a fail-closed translator on every run + kernel-checked correspondence "
-                 "batches (binary64 with tolerance, exact rationals where sqrt-free) + independent numpy oracle",
+    "technique": "Coq proof over an arbitrary field / commutative ring (ring, field, induction over the element lists, a "
+                 "bilinear-form argument for the sparse product N^T D N) and over R for the sqrt-bearing geometry, about an "
+                 "executable model of the operator assembly whose (row, col, value) patterns, weights, index formulas, option "
+                 "order and shapes are regenerated from the source by a fail-closed translator on every run + kernel-checked "
+                 "correspondence batches (binary64 with tolerance for every operator and option, exact rationals where "
+                 "sqrt-free) + independent numpy oracle",
     "level_text": "Machine-checked, unbounded Coq theorems about the model of operators/{laplacian_op,gradient_op,mass,"
-                  "adjacency}.py (assembly patterns regenerated from the source each run): symmetry and zero row sums of the "
-                  "cotan/uniform/dual/edge/volume/tetra Laplacians for every element list and every weight; the cotan "
-                  "Laplacian equals the P1 stiffness matrix and Re(G* A G) entrywise for every non-degenerate triangle list; "
-                  "the gradient of an affine function is its tangential part in the face basis; mass matrices are diagonal, "
-                  "positive, with the stated totals; graph Laplacian = degree - adjacency; incidence patterns. The model is "
-                  "tied to the code by the translator and by kernel-evaluated correspondence batches on generated meshes "
-                  "(all options).",
+                  "adjacency}.py and of the face bases of processing/connection.py (assembly patterns regenerated from the "
+                  "source each run). FULL: the cotan/uniform vertex, edge, dual (N^T D N with the model's sparse products) and "
+                  "volume Laplacians are symmetric with zero row sums for every element list and every weight; the tetrahedral "
+                  "dual Laplacian has zero row sums always and is symmetric whenever cell_to_cell is symmetric (hypothesis "
+                  "named; a C03 fact); for every list of non-degenerate triangles the cotan Laplacian equals the independently "
+                  "assembled P1 stiffness matrix entrywise (any field; over R with the cotangent exactly as geometry.cotan "
+                  "computes it); the gradient rows applied to an affine function give its tangential gradient in the face basis, "
+                  "over R with geometry.face_basis as SurfaceConnectionFaces uses it (proved to be a direct orthonormal tangent "
+                  "basis); real gradient = stacked complex one; mass matrices are diagonal, options act entrywise with sqrt "
+                  "before inverse, vertex masses sum to 3 x area (4 x volume), face/cell masses to the area/volume, areas and "
+                  "vertex masses are positive on non-degenerate meshes (R); graph Laplacian = degree - adjacency; adjacency and "
+                  "vertex-edge / vertex-face operators have exactly the documented coefficient per incidence. PARTIAL: "
+                  "Re(G* A G) = L is proved for the face-by-face accumulation of the generated gradient rows, not through the "
+                  "generic sparse product; the total (= area) and positivity of the EDGE mass matrix are only pinned (share "
+                  "area/3) and tested, not proved (needs manifoldness of direct_face). Everything is also tested on every run "
+                  "by kernel-evaluated correspondence batches on generated meshes with and without border, tets, polylines, "
+                  "every option.",
     "level_note": "Trusted: Coq kernel + vm_compute; the translator vf/translate/c08.py; the correspondence harness "
-                  "(mesh generators, driver canonicalisation of scipy matrices, tolerance 1e-9 on binary64 runs from "
-                  "integer coordinates); numpy/scipy sparse constructors sum duplicate coefficients; mesh.edges / "
-                  "connectivity queries are taken from the mesh (C01-C03) and re-derived from the face list in the model; "
-                  "floating-point round-off is outside the theorems (they are over fields).",
+                  "(mesh generators, driver canonicalisation of scipy matrices = summed coefficients, tolerance 1e-9 on "
+                  "binary64 runs from integer coordinates, 1e-12 against exact rationals); scipy's sparse constructors / products "
+                  "(sum of duplicate coefficients, @) and lil assignment; mesh.edges and connectivity queries (C01-C03) are "
+                  "re-derived from the face / cell list in the model and compared through the matrices; floating-point "
+                  "round-off is outside the theorems (they are over fields). The connection-valued (complex transport) variants "
+                  "of the Laplacians are outside C08's sentence and not modelled. Stdlib real-number axioms only for the "
+                  "theorems stated over R.",
 }
 
 HEADER = """From Coq Require Import ZArith List Bool.
@@ -825,7 +840,7 @@ def classify_known(key):
 
 def run(ctx):
     quick = ctx.tier == "quick"
-    n_surf, n_vol, n_line = (150, 50, 40) if quick else (3200, 900, 500)
+    n_surf, n_vol, n_line = (130, 45, 35) if quick else (2000, 500, 300)
     ctx.rule = ("integer-coordinate meshes: open/closed fans, closed polyhedra, planar lattice grids and height fields with "
                 "random diagonals, holes, 1->3 splits, renumbering, face rotation, both orientations, occasional isolated vertex; "
                 "tet meshes (1, 2, 5-/6-tet cubes, 1->4 split, jitter, permuted cells); polylines (paths, cycles, stars, trees+chords). "
@@ -953,6 +968,9 @@ def replay(ctx, data):
     if not case:
         print("replay file names no concrete input:", json.dumps(data)[:400])
         return 1
+    if "ops" not in case:
+        import random
+        case = finish_case(random.Random(0), dict(case))
     ob = one(case)
     res = oracle(case, ob)
     key = data.get("class")
